@@ -13,7 +13,7 @@ import itertools, random
 from . import common as C, progrun as R
 
 PROP = "C14"
-MODULES = ["RuschmProofs.C14", "RuschmProofs.C14Model"]
+MODULES = ["RuschmProofs.C14", "RuschmProofs.C14Model", "RuschmProofs.C14Dir"]
 LEAF_KINDS = ["missing", "wrongname", "broken", "unreadable"]
 
 
@@ -174,7 +174,7 @@ def run(rep, tier, rng):
     # the PROGRAM DIRECTORY may be recorded late, or change: lookups made before it is known (they fail: the working directory
     # holds nothing), then the directory is recorded (field D) - or a program FILE is run (field E), then another one from another
     # directory: every lookup uses the directory of the program being run at that moment, whatever was looked up before
-    # (real code only: the model's state has one program directory)
+    # (the model follows: State.dir, Interp.evalFile; driver fields W, D, E)
     valdef = lambda nm, v, deps=(): "(define-library (%s) (import (scheme base) %s) (export %s-val) (begin (define %s-val %d)))" % (
         nm, " ".join("(%s)" % d for d in deps), nm, nm, v)
     dcases, dwant = [], {}
@@ -187,8 +187,13 @@ def run(rep, tier, rng):
             present = names[:2]
             for nm in present:
                 fields.append("F%s.sld=%s" % (nm, valdef(nm, vals[nm])))
+            decoy = None
+            if rng.random() < 0.4:
+                # a file of that name in the WORKING directory: while no program directory is recorded, that is where lookups go
+                decoy = names[2]
+                fields.append("W%s.sld=%s" % (decoy, valdef(decoy, 99)))
             for _ in range(rng.randrange(1, 4)):
-                nm = rng.choice(names + ["missing-zz"])
+                nm = rng.choice([x for x in names if x != decoy] + ["missing-zz"])
                 fields.append(">(import (%s))" % nm); want.append("E libNotFound")
             fields.append("D")
             for nm in rng.sample(names, 3):
@@ -213,6 +218,10 @@ def run(rep, tier, rng):
             loaded = set()
             for k in order:
                 d = dirs[k]
+                if rng.random() < 0.25:
+                    # a program file that does not exist, in yet another directory: an io error - and what follows is still looked
+                    # up next to the program run THEN
+                    fields.append("Enowhere%d/none.scm" % k); want.append("E io")
                 if rng.random() < 0.4:
                     other = names[(k + 1) % len(dirs)]
                     fields.append("E%s/other.scm" % d)
@@ -222,7 +231,7 @@ def run(rep, tier, rng):
                 fields.append(">%s-val" % nm); want.append("V i:%d" % vals[nm])
         cid = "dir%d" % j
         dcases.append((cid, "libs", fields)); dwant[cid] = want
-    dres = C.run_hx(dcases)
+    dres, dmod = C.run_hx(dcases), C.run_driver(dcases)
     for cid, _, fields in dcases:
         r = dres.get(cid, [])
         rep.count()
@@ -231,6 +240,9 @@ def run(rep, tier, rng):
         if got != dwant[cid]:
             rep.violation({"what": "a library is not looked up next to the program being run (the program directory was recorded late, or another "
                                    "program was run before)", "fields": fields, "expected": dwant[cid], "implementation": r})
+        elif [R.norm_result(x) for x in dmod.get(cid, [])] != [R.norm_result(x) for x in r]:
+            rep.violation({"broken": "correspondence Interp.evalFile / State.dir <-> eval_file / program_directory", "fields": fields,
+                           "implementation": r, "model": dmod.get(cid)}, no_input=True)
     impl = C.run_hx(cases)
     model = C.run_driver(cases)
     kinds = {}
